@@ -3,7 +3,7 @@ from props.fsmlib import *
 
 def cases(tier):
     L = []
-    fams = ['f5', 'fsel', 'foroot'] if tier == 'quick' else THOROUGH
+    fams = ['f5', 'fsel', 'foroot', 'fw5'] if tier == 'quick' else THOROUGH + ['fw5']
     T = 1 if tier == 'quick' else 3
     for fam in fams:
         o = dict(sublimit=2, callbacks=['guard', 'life', 'update1', 'select'], act=['guard', 'update'], kinds=0x9e)
